@@ -513,9 +513,14 @@ class Queue(Greenlet):
         self.wake.clear()
         self.queued_lock.acquire()
         try:
-            for entry in self.queued:
-                self._pool_spawn('store', self._dequeue, entry[1])
+            # Detach the waiting entries (and forget their ids) first:
+            # spawning into a full store pool blocks, and entries added
+            # meanwhile must neither be skipped nor dropped.
+            waiting = self.queued
             self.queued = []
+            self.queued_ids = set()
+            for entry in waiting:
+                self._pool_spawn('store', self._dequeue, entry[1])
         finally:
             self.queued_lock.release()
 
